@@ -84,10 +84,24 @@ def threshold_rules(chk, F, an, tag, prefix="A1"):
     def dep2(d):
         return (an["C"], an["cfield"]) in d["fields"] and any(r["op"] in ("Lt", "Le", "Gt", "Ge") for r in d["binops"])
     gs = gf.find_guards(inc, dep2, [wb]) if wb is not None else []
-    chk.ob(prefix + ".anchors", inc.key + tag, len(sums) == 1 and len(gs) >= 1,
-           "could not locate the total-height sum (%d) and the threshold comparison (%d) in %s" % (len(sums), len(gs), inc.path), where=inc.loc())
-    if len(sums) == 1 and gs:
-        tl = sums[0][1]["dest"]["local"]
+    # however the total is summed up (iterator sum, explicit loop): the value that is partitioned is the shift amount / exponent
+    # of the 2^t computation
+    shift_locals = []
+    for b, t in inc.calls():
+        last = core.strip_generics(core.callee_path(t) or "").rsplit("::", 1)[-1]
+        if not inc.blocks[b]["cleanup"] and last in ("checked_shl", "wrapping_shl", "overflowing_shl", "pow", "checked_pow", "saturating_pow") and len(t["args"]) == 2:
+            l = core.op_local(t["args"][1])
+            if l is not None:
+                shift_locals.append(l)
+    for b, i, s_ in inc.iter_stmts():
+        if s_["k"] == "assign" and s_["rv"]["k"] == "binop" and s_["rv"]["op"] in ("Shl", "ShlUnchecked") and not inc.blocks[b]["cleanup"]:
+            l = core.op_local(s_["rv"]["b"])
+            if l is not None:
+                shift_locals.append(l)
+    tl = sums[0][1]["dest"]["local"] if len(sums) == 1 else (shift_locals[0] if len(shift_locals) == 1 and len([d for d in inc.defs_of(shift_locals[0])]) == 1 else None)
+    chk.ob(prefix + ".anchors", inc.key + tag, tl is not None and len(gs) >= 1,
+           "could not locate the total tree height (sum calls %d, 2^t computations %d) and the threshold comparison (%d) in %s" % (len(sums), len(shift_locals), len(gs), inc.path), where=inc.loc())
+    if tl is not None and gs:
         gb = gs[0].block
         for lo, hi in ((1, 31), (32, 63), (64, 200)):
             anl.overrides = {(inc.path, tl): (lo, hi)}
